@@ -47,6 +47,9 @@ def shapes(tier):
         out.append({"family": "slots", "nt": 2 if K == "default" else 1, "poly": 2, "noff": 1 if K == "default" else 0, "K": K, "units": "sym", "P_unit": "day", "tref": "default", "rows": 1, "slots_only": True})
     out.append({"family": "slots", "nt": 1, "poly": 1, "noff": 0, "K": "default", "units": "sym", "P_unit": "sym", "tref": "default", "rows": 1, "slots_only": True})
     out.append({"family": "slots", "nt": 1, "poly": 1, "noff": 0, "K": "default", "units": "plain", "P_unit": "year", "tref": "default", "rows": 1, "slots_only": True})
+    # call history: the same prior object served another data set (other RV unit) before
+    out.append({"family": "slots", "nt": 1, "poly": 2, "noff": 0, "K": "default", "units": "sym", "P_unit": "day", "tref": "default", "rows": 1, "slots_only": True, "history": "prior_reused"})
+    out.append({"family": "slots", "nt": 2, "poly": 1, "noff": 1, "K": "normal" if False else "default", "units": "plain", "P_unit": "day", "tref": "default", "rows": 1, "slots_only": True, "history": "prior_reused"})
     for n in (1, 2):
         out.append({"family": "pack", "n": n})
     for N in (1, 2, 3):
@@ -296,6 +299,17 @@ def replay(cand):
                     b = np.sort(ref_s[c].to_value(un))
                     if not np.allclose(a, b, rtol=1e-9, atol=1e-12):
                         bad.append("%s: posterior %s not physically equal between unit systems" % (tag, c))
+        # call history: ONE prior object (declared in km/s) serving the km/s data and then the m/s twin
+        j3 = tj.TheJoker(base_p, rng=np.random.default_rng(77))
+        ll_a = np.asarray(j3.marginal_ln_likelihood(base_d, lib, in_memory=True))
+        ll_b = np.asarray(tj.TheJoker(base_p, rng=np.random.default_rng(77)).marginal_ln_likelihood(d2, lib, in_memory=True))
+        if not np.allclose(ll_a, ref_ll, rtol=1e-6, atol=1e-6) or not np.allclose(ll_b + shift, ref_ll, rtol=1e-6, atol=1e-6):
+            bad.append("same prior object used with km/s data and then with the m/s twin: ll differs by more than the Jacobian n*ln(1000) (max dev %.3g)" % np.max(np.abs(ll_b + shift - ref_ll)))
+        s3 = tj.TheJoker(base_p, rng=np.random.default_rng(77)).rejection_sample(d2, lib, in_memory=True)
+        if len(s3) != len(ref_s) or not np.allclose(np.sort(s3["P"].to_value(u.day)), np.sort(ref_s["P"].to_value(u.day)), rtol=1e-9):
+            bad.append("same prior object, second data unit: accepted set differs between unit systems")
+        elif not np.allclose(s3["K"].to_value(u.km / u.s), ref_s["K"].to_value(u.km / u.s), rtol=1e-5, atol=1e-6):
+            bad.append("same prior object, second data unit: posterior K not physically equal")
     except Exception as e:
         import traceback
         if not bad:
